@@ -13,6 +13,12 @@ Definition steps_of (c : case) (tr : list (list out)) : list step :=
 Definition nowin (c : case) : bool := no_window (c_win c).
 
 (* which: 1 C01, 2 C02, 3 C03, 4 C04, 12 C12, 13 C13, 17 C17 *)
+(* the harness marks a bad frame that Process() did not report as *lepton3.BadFrameErr (handleConn
+   would then neither raise the bad-thermal-frame event nor ask for a camera restart), an error
+   returned for a valid frame, and a recovered Go panic, with a Panic element *)
+Definition no_panic_mark (st : list step) : bool :=
+  forallb (fun s => forallb (fun o => match o with Panic => false | _ => true end) (snd s)) st.
+
 Definition spec (which : Z) (c : case) (tr : list (list out)) : bool :=
   let st := steps_of c tr in
   (* C01-C03 are claimed for runs in which no write on the motion sink fails (nowf) *)
@@ -21,7 +27,7 @@ Definition spec (which : Z) (c : case) (tr : list (list out)) : bool :=
   else if which =? 3 then negb (nowf st) || S03 (c_cfg c) st
   else if which =? 4 then S04 (c_cfg c) (nowin c) st
   else if which =? 12 then S12 st && ((c_tail c <? 0) || S12_recovers (Z.to_nat (c_tail c)) st)
-  else if which =? 13 then S13 (c_cfg c) st
+  else if which =? 13 then S13 (c_cfg c) st && no_panic_mark st
   else if which =? 17 then S17c (c_cfg c) st && S17t st
   else true.
 
